@@ -23,6 +23,7 @@ FLOW_COLS = {"line": {"p_f": "p_from_mw", "q_f": "q_from_mvar", "p_t": "p_to_mw"
                        "i_f": "i_hv_ka", "i_t": "i_lv_ka"}}
 ALTS = (("irwls", {}), ("lp", {}), ("wls_with_zero_constraint", {"zero_injection": "no_inj_bus"}))
 LP_ON = ("none", "all_but_i", "all")
+TLC_FIELDS = ("s", "pf", "est", "ref_ord", "ref_red", "bad", "z", "rows", "alts")
 N_LEVELS = 4
 _BASE = {}
 
@@ -152,16 +153,15 @@ def run_estimate(mnet, algorithm="wls", **kw):
 
 
 def z_layout(mnet):
-    """pp_meas_indices and merged weights (4 sigma_row^2 / r_cov^2) of the estimator object; conformance only"""
+    """pp_meas_indices and merged weights (4 sigma_row^2 / r_cov^2) of the estimator's measurement vector, built by the
+    same conversion estimate() calls (state_estimation.py:244); conformance only, never a verdict"""
     try:
         import numpy as np
-        from pandapower.estimation.state_estimation import StateEstimation
-        net = mnet
-        se = StateEstimation(net, 1e-8, 50, algorithm="wls")
-        se.estimate(v_start=None, delta_start=None, zero_injection="aux_bus", fuse_buses_with_bb_switch="all",
-                    algorithm="wls")
-        idx = [int(x) for x in se.solver.pp_meas_indices]
-        rcov = np.asarray(se.solver.eppci.r_cov, dtype=float)
+        from pandapower.estimation.ppc_conversion import pp2eppci
+        _, _, eppci = pp2eppci(mnet, v_start=None, delta_start=None, calculate_voltage_angles=True,
+                               zero_injection="aux_bus", algorithm="wls")
+        idx = [int(x) for x in eppci.pp_meas_indices]
+        rcov = np.asarray(eppci.r_cov, dtype=float)
         w4 = []
         for k, ix in enumerate(idx):
             m = mnet.measurement.loc[ix]
@@ -306,9 +306,10 @@ def run(tier, seed, replay=None):
         part = [k for k, c in enumerate(cases) if c["tpl"] == tpl]
         if not part:
             continue
-        f, st = tlc_obs("EstimationObs", "EstimationObs%s.cfg" % tpl, [cases[k] for k in part])
+        slim = [{k2: cases[k][k2] for k2 in TLC_FIELDS} for k in part]     # the rest is kept for replay files only
+        f, st = tlc_obs("EstimationObs", "EstimationObs%s.cfg" % tpl, slim, chunk=4000)
         fails += [(n, part[k]) for n, k in f]
-        g, st2 = tlc_obs("EstimationObs", "EstimationConf%s.cfg" % tpl, [cases[k] for k in part])
+        g, st2 = tlc_obs("EstimationObs", "EstimationConf%s.cfg" % tpl, slim, chunk=4000)
         conf += [(n, part[k]) for n, k in g]
         ost["states"] += st["states"] + st2["states"]
         ost["generated"] += st["generated"] + st2["generated"]
@@ -347,7 +348,9 @@ def run(tier, seed, replay=None):
         "order_pairs": sum(1 for c in req if c["ref_ord"]["has"]), "redundancy_pairs": sum(1 for c in req if c["ref_red"]["has"]),
         "bad_data_runs": len(req), "rn_test_true": sum(c["bad"]["rn"] == 1 for c in req),
         "rn_test_false_or_raised": sum(c["bad"]["rn"] != 1 for c in req),
-        "rows_removed_outside_domain": sum(c["bad"]["removed"] > 0 for c in req),
+        "cases_without_critical_measurement": sum(not c["cls"]["critical"] for c in req),
+        "cases_with_chi2_df_ge_1": sum(c["cls"]["df"] >= 1 for c in req),
+        "cases_with_rows_removed": sum(c["bad"]["removed"] > 0 for c in req),
         "chi2_not_detected": sum(c["bad"]["chi2"] == 0 for c in req), "chi2_detected_or_none": sum(c["bad"]["chi2"] != 0 for c in req),
         "z_layout_available": sum(c["z"]["avail"] for c in cases), "alt_algorithms": alt_counts,
         "levels": sorted({c["lvl"] for c in cases}),
@@ -357,7 +360,10 @@ def run(tier, seed, replay=None):
         "templates T4 (ring of 3 lines + transformer) and T3 (2 parallel lines + transformer), one ext_grid, no shunts/switches",
         "observability = the spec's conservative sufficient predicate (one v + injection pairs at all buses but one, or "
         "one v + flow pairs on a spanning tree); other observable sets (e.g. mixed, current-only) are not required",
-        "rn_max test required only without critical measurements, chi2 test only with >= 1 degree of freedom",
+        "remove_bad_data must delete no row and chi2_analysis must not report bad data on every observable set; the return "
+        "value True of remove_bad_data is required only for sets without a critical measurement (spec: NoCritical)",
+        "other algorithms (thorough: irwls, lp, wls_with_zero_constraint) are compared when they accept the set and report "
+        "success; refusals and non-convergence are counted (coverage.alt_algorithms)",
         "estimate(init='flat', tolerance=1e-8); remove_bad_data / chi2_analysis with their defaults",
         "trafo/line loading_percent not compared (estimation uses trafo_loading='power')",
     ]
